@@ -479,9 +479,9 @@ func (e *Ext) decCall(call *ssa.Call, names map[ssa.Value]string) *Atom {
 			p = bp
 		} else if lt, ok3 := e.localTarget(cc.Args[0]); ok3 {
 			p = lt
-		} else if g, ok4 := cc.Args[0].(*ssa.Call); ok4 && g.Common().StaticCallee() != nil && g.Common().StaticCallee().Name() == "GetAndX" {
+		} else if acc := andxAccessor(cc.Args[0]); acc != "" {
 			// c.GetAndX().Unmarshal(...): an accessor of the embedded Command
-			p = strings.TrimPrefix(g.Common().StaticCallee().Name(), "Get")
+			p = strings.TrimPrefix(acc, "Get")
 		} else {
 			return nil
 		}
@@ -1094,4 +1094,37 @@ func (e *Ext) decBinaryImage(call *ssa.Call, names map[ssa.Value]string) []*Atom
 		run = run.AddK(int64(w))
 	}
 	return out
+}
+
+// andxAccessor: v is c.GetAndX(), or the local that holds it with a freshly
+// constructed block substituted when it was nil
+// (`x := c.GetAndX(); if x == nil { x = andx.NewAndX(); c.SetAndX(x) }`): a φ
+// of the accessor call and constructor calls of the same type.
+func andxAccessor(v ssa.Value) string {
+	isGet := func(v ssa.Value) bool {
+		g, ok := v.(*ssa.Call)
+		return ok && g.Common().StaticCallee() != nil && g.Common().StaticCallee().Name() == "GetAndX"
+	}
+	if isGet(v) {
+		return "GetAndX"
+	}
+	phi, ok := v.(*ssa.Phi)
+	if !ok {
+		return ""
+	}
+	seen := false
+	for _, e := range phi.Edges {
+		if isGet(e) {
+			seen = true
+			continue
+		}
+		c, ok := e.(*ssa.Call)
+		if !ok || c.Common().StaticCallee() == nil || !strings.HasPrefix(c.Common().StaticCallee().Name(), "New") || !types.Identical(c.Type(), phi.Type()) {
+			return ""
+		}
+	}
+	if seen {
+		return "GetAndX"
+	}
+	return ""
 }
